@@ -93,13 +93,14 @@ def result(eng: NullFlow, kind, name, extra=None):
 
 # ------------------------------------------------------------------ jobs
 def jobs(prog: Program):
-    out = [('classify', 'from_string'), ('classify', 'from_file'), ('classify', 'from_s3')]
+    # the two long jobs first (the pool hands jobs out in order)
+    out = [('accessors', 'RunningOrder'), ('accessors-sub', 'RunningOrder subclasses'),
+           ('classify', 'from_string'), ('classify', 'from_file'), ('classify', 'from_s3')]
     mos = prog.cls('MosFile')
     for c in prog.subclasses(mos):
         fi = c.find('inspect')
         if fi is not None and c.name not in ('MosFile', 'ElementAction'):
             out.append(('inspect', c.name))
-    out.append(('accessors', 'RunningOrder'))
     out.append(('notetable', 'Story.script'))
     for cname in schema.ACCESSOR_ROLES:
         out.append(('msgaccessors', cname))
@@ -112,7 +113,9 @@ def run_job(prog: Program, kind, name):
     if kind == 'inspect':
         return run_inspect(prog, name)
     if kind == 'accessors':
-        return run_accessors(prog)
+        return run_accessors(prog, part='base')
+    if kind == 'accessors-sub':
+        return run_accessors(prog, part='sub')
     if kind == 'notetable':
         return run_note_table(prog)
     if kind == 'msgaccessors':
@@ -194,14 +197,16 @@ def public_properties(ci):
     return out
 
 
-def run_accessors(prog: Program):
+def run_accessors(prog: Program, part='all'):
+    """part: 'base' = RunningOrder with its stories and items, 'sub' = the accessors as inherited by the subclasses of
+    RunningOrder, 'all' = both (the two parts run as separate jobs and are merged by analysis.null_results)."""
     eng = NullFlow(prog, 'read accessors')
     st0 = base_state(eng)
     root = new_root(st0, 'RO', 'RO')
     ro_cls = prog.cls('RunningOrder')
     checked = []
     # the subclasses inherit every accessor but read a different base tag (roReplace): same obligations
-    for sub in [c for c in prog.subclasses(ro_cls) if c.name != 'RunningOrder']:
+    for sub in ([c for c in prog.subclasses(ro_cls) if c.name != 'RunningOrder'] if part in ('all', 'sub') else []):
         st1 = base_state(eng)
         root1 = new_root(st1, 'RO', 'RO')
         for ro, st in make_object(eng, sub, root1, st1):
@@ -221,7 +226,7 @@ def run_accessors(prog: Program):
                         eng.escape('NO-BUILTIN-ESCAPE', v, s, [], f'for a {sub.name} object')
                         continue
                     eng.record_value(eng.entry, v, s)
-    for ro, st in make_object(eng, ro_cls, root, st0):
+    for ro, st in (make_object(eng, ro_cls, root, st0) if part in ('all', 'base') else []):
         if isinstance(ro, Raise):
             raise AnalysisError('RunningOrder constructor raises')
         req = dict(st.mon.get('sym:rootreq') or {})
@@ -250,7 +255,7 @@ def run_accessors(prog: Program):
             for v, s in eng.call_function(fi, [], {}, st.copy(), None, self_val=ro):
                 if isinstance(v, Raise):
                     eng.escape('NO-BUILTIN-ESCAPE', v, s, [], 'for a reachable running order')
-    return result(eng, 'accessors', 'RunningOrder', {'checked': sorted(set(checked))})
+    return result(eng, 'accessors' if part != 'sub' else 'accessors-sub', 'RunningOrder', {'checked': sorted(set(checked))})
 
 
 def check_elements(eng: NullFlow, prog: Program, lst, st: State, cname: str, checked, depth=0):
